@@ -161,6 +161,99 @@ pub fn shrink_in_children(id: &str, bytes: &[u8], clause: &str, max_runs: usize)
     (cur, cur_fail)
 }
 
+pub struct FuzzOutcome {
+    pub target: String,
+    pub runs: u64,
+    pub cov: u64,
+    pub corpus: u64,
+    pub crash: Option<String>,
+    pub note: String,
+}
+
+/// One libFuzzer campaign (cargo-fuzz, nightly): fixed number of runs, seeded, fresh corpus directory
+/// (plus the committed seeds of /verif/corpus/<target>/ if present).
+pub fn fuzz_campaign(id: &str, target: &str, runs: u64, max_len: usize, seed: u64, timeout_s: u64) -> FuzzOutcome {
+    let corpus = format!("{}/out/fz-{}-{}/{}", VERIF_ROOT, id, std::process::id(), target);
+    let _ = std::fs::create_dir_all(&corpus);
+    let art = format!("{}/out/fuzz-artifacts/{}-{}/", VERIF_ROOT, id, target);
+    let _ = std::fs::create_dir_all(&art);
+    let seeds = format!("{}/corpus/{}", VERIF_ROOT, if target == "prop" { id } else { target });
+    let mut cmd = Command::new("cargo");
+    cmd.current_dir(format!("{}/harness", VERIF_ROOT))
+        .env("RUSTFLAGS", "--cfg sentinel_verif")
+        .env("CARGO_NET_OFFLINE", "true")
+        .env("SVCHECK_PROP", id)
+        .args(["+nightly", "fuzz", "run", "--fuzz-dir", &format!("{}/fuzz", VERIF_ROOT), "--target-dir", &format!("{}/target/fuzz", VERIF_ROOT), target, &corpus]);
+    if std::path::Path::new(&seeds).is_dir() {
+        cmd.arg(&seeds);
+    }
+    cmd.args(["--", &format!("-runs={}", runs), &format!("-seed={}", (seed % 0xffff_ffff).max(1)), &format!("-max_len={}", max_len), "-len_control=0", &format!("-artifact_prefix={}", art), "-print_final_stats=1"]);
+    cmd.stdout(Stdio::null()).stderr(Stdio::piped());
+    let mut out = FuzzOutcome { target: target.to_string(), runs: 0, cov: 0, corpus: 0, crash: None, note: String::new() };
+    let mut child = match cmd.spawn() {
+        Ok(c) => c,
+        Err(e) => {
+            out.note = format!("spawn failed: {}", e);
+            return out;
+        }
+    };
+    let se = child.stderr.take();
+    let h = std::thread::spawn(move || {
+        let mut s = String::new();
+        if let Some(mut se) = se {
+            let _ = se.read_to_string(&mut s);
+        }
+        s
+    });
+    let t0 = std::time::Instant::now();
+    loop {
+        match child.try_wait() {
+            Ok(Some(_)) => break,
+            Ok(None) => {
+                if t0.elapsed().as_secs() > timeout_s {
+                    let _ = child.kill();
+                    let _ = child.wait();
+                    out.note = "wall-clock budget exhausted (inconclusive, not a violation)".into();
+                    break;
+                }
+                std::thread::sleep(std::time::Duration::from_millis(200));
+            }
+            Err(_) => break,
+        }
+    }
+    let log = h.join().unwrap_or_default();
+    for line in log.lines() {
+        if let Some(r) = line.strip_prefix("stat::number_of_executed_units:") {
+            out.runs = r.trim().parse().unwrap_or(0);
+        }
+        if line.starts_with('#') && line.contains("cov:") {
+            let toks: Vec<&str> = line.split_whitespace().collect();
+            for w in toks.windows(2) {
+                if w[0] == "cov:" {
+                    out.cov = w[1].parse().unwrap_or(out.cov);
+                }
+                if w[0] == "corp:" {
+                    out.corpus = w[1].split('/').next().unwrap_or("0").parse().unwrap_or(out.corpus);
+                }
+            }
+            if out.runs == 0 {
+                out.runs = toks[0].trim_start_matches('#').parse().unwrap_or(0);
+            }
+        }
+        if let Some(i) = line.find("Test unit written to ") {
+            out.crash = Some(line[i + 21..].trim().to_string());
+        }
+        if line.contains("ORACLE-FAIL") || line.contains("panicked at") {
+            out.note = line.chars().take(400).collect();
+        }
+        if line.contains("error: could not compile") || line.contains("error[") {
+            out.note = format!("fuzz build failed: {}", line);
+        }
+    }
+    let _ = std::fs::remove_dir_all(format!("{}/out/fz-{}-{}", VERIF_ROOT, id, std::process::id()));
+    out
+}
+
 pub fn check(id: &str, tier: Tier) -> i32 {
     let prop = match find_property(id) {
         Some(p) => p,
@@ -388,6 +481,47 @@ pub fn check(id: &str, tier: Tier) -> i32 {
     }
     let _ = std::fs::remove_dir_all(&dir);
 
+    // 3b. coverage-guided campaigns (thorough tier only)
+    let mut fuzz_json: Vec<Value> = Vec::new();
+    if tier == Tier::Thorough && std::env::var("VERIF_NO_FUZZ").is_err() {
+        for (target, runs, max_len) in prop.fuzz_targets() {
+            let o = fuzz_campaign(id, target, runs, max_len, seed, 4 * 3600);
+            evaluations += o.runs;
+            if let Some(path) = &o.crash {
+                let bytes = std::fs::read(path).unwrap_or_default();
+                if target == "prop" {
+                    // confirm with the strict oracle in a fresh process
+                    match run_case_in_child(id, &bytes, 600) {
+                        Ok(Some(fl)) => {
+                            if known.contains_key(&fl.key) {
+                                *known_hits.entry(fl.key.clone()).or_insert(0) += 1;
+                            } else {
+                                let (b2, f2) = shrink_in_children(id, &bytes, &fl.clause, 300);
+                                let f3 = f2.unwrap_or(fl);
+                                let rp = write_replay(id, &util::hex(&b2), &f3, seed);
+                                violations.push((rp, f3));
+                            }
+                        }
+                        Ok(None) => inconclusive.push(format!("fuzz target {} saved {} but the strict replay passes", target, path)),
+                        Err(e) => inconclusive.push(format!("fuzz target {}: replay of {} failed: {}", target, path, e)),
+                    }
+                } else {
+                    let fl = Failure {
+                        clause: "fuzz-crash".into(),
+                        key: format!("{}|fuzz|{}", id, target),
+                        detail: format!("libFuzzer target {} crashed: {} (input saved at {}; replay: target/fuzz/x86_64-unknown-linux-gnu/release/{} <file>)", target, o.note, path, target),
+                        decoded: serde_json::json!({"fuzz_target": target, "artifact": path, "bytes": util::hex(&bytes)}),
+                    };
+                    let rp = write_replay(id, &util::hex(&bytes), &fl, seed);
+                    violations.push((rp, fl));
+                }
+            } else if o.runs == 0 {
+                inconclusive.push(format!("fuzz target {} did not run: {}", target, o.note));
+            }
+            fuzz_json.push(serde_json::json!({"target": target, "runs": o.runs, "edges_covered": o.cov, "corpus_units": o.corpus, "crash": o.crash, "note": o.note}));
+        }
+    }
+
     // 4. evidence
     let wall = t0.elapsed().as_secs_f64();
     if samples.is_empty() {
@@ -408,6 +542,9 @@ pub fn check(id: &str, tier: Tier) -> i32 {
         "inconclusive": inconclusive,
         "exhaustive": false,
     });
+    if !fuzz_json.is_empty() {
+        coverage["fuzz_campaigns"] = Value::Array(fuzz_json);
+    }
     if let Some(e) = extra {
         coverage["extra"] = e;
         coverage["extra_evaluations"] = serde_json::json!(extra_evals);
